@@ -3,11 +3,17 @@ import gen
 
 ID = "C01"
 LEVEL = "proof"
-MODULES = ["H3Proofs.Props.C01", "H3Proofs.Props.C01Lnz", "H3Proofs.Props.C01Rot", "H3Proofs.Props.C05Valid2", "H3Proofs.Props.C02Valid", "H3Proofs.Props.C09Valid", "H3Proofs.Props.C10Valid", "H3Proofs.Props.C05All"]
+MODULES = ["H3Proofs.Props.C01", "H3Proofs.Props.C01Lnz", "H3Proofs.Props.C01Rot", "H3Proofs.Props.C04Gen", "H3Proofs.Props.C05Gen", "H3Proofs.Props.C05Valid2", "H3Proofs.Props.C02Valid", "H3Proofs.Props.C09Valid", "H3Proofs.Props.C10Valid", "H3Proofs.Props.C05All"]
 THEOREMS = ["H3.C01.isValidCell_eq_layout", "H3.C01.isValidCell_defined_all", "H3.C01.pentBC_eq_table",
             "H3.C01L.h3LeadingNonZeroDigit_defined_all", "H3.C01L.h3LeadingNonZeroDigit_eq_model",
             "H3.C01R.h3Rotate60ccw_defined_all", "H3.C01R.h3Rotate60cw_defined_all",
             "H3.C01R.h3Rotate60ccw_eq_model", "H3.C01R.h3Rotate60cw_eq_model",
+            "H3.C04G.isPentagon_eq_model", "H3.C04G.isPentagon_defined_all", "H3.C04G.cellToParent_eq_model",
+            "H3.C04G.cellToParent_defined_all", "H3.C04G.cellToCenterChild_eq_model", "H3.C04G.cellToCenterChild_defined_all",
+            "H3.C04G.cellToChildrenSize_eq_model", "H3.C04G.cellToChildrenSize_defined_all", "H3.C04G.makeDirectChild_eq_model",
+            "H3.C04G.makeDirectChild_defined_of", "H3.C04G.setH3Index_eq_model", "H3.C04G.setH3Index_defined_of",
+            "H3.C05G.h3RotatePent60ccw_eq_model", "H3.C05G.h3RotatePent60cw_eq_model",
+            "H3.C05G.h3RotatePent60ccw_defined_all", "H3.C05G.h3RotatePent60cw_defined_all",
             "H3.C05V.h3NeighborRotations_layout", "H3.C05V.walk_valid", "H3.C02V.faceIjkToH3_valid",
             "H3.C09V.localIjToCell_valid", "H3.C09V.gridPathCells_valid", "H3.C10V.edge_cells_valid",
             "H3.C05R.gridDiskDistancesUnsafe_valid", "H3.C05R.gridRingUnsafe_valid", "H3.C05All.gridDiskDistances_valid"]
@@ -23,7 +29,12 @@ ASSUMPTIONS = ["Gen.Bits.isValidCell is the c2lean translation of the C text (va
                "_h3LeadingNonZeroDigit, _h3Rotate60ccw, _h3Rotate60cw (and _rotate60ccw/_rotate60cw) are translated from the C "
                "text on every run with their loops unrolled sixteen times and PROVED equal to the hand-written model functions "
                "for all 2^64 values (C01Lnz, C01Rot): these three model functions are tied to the code by translation, not "
-               "only by correspondence", "bv_decide's LRAT checker (one native axiom per bv_decide theorem)"]
+               "only by correspondence",
+               "likewise (C04Gen, C05Gen) isPentagon with _isBaseCellPentagon and the isPentagon column of baseCellData, "
+               "cellToParent, _hasChildAtRes, cellToCenterChild, _ipow(7, 0..15), cellToChildrenSize, makeDirectChild, setH3Index, "
+               "_h3RotatePent60ccw, _h3RotatePent60cw: translated from the C text on every run (out parameters as extra results, "
+               "conditionals inside loops as merges) and proved equal to the model functions, error codes and 'output untouched "
+               "on error' included", "bv_decide's LRAT checker (one native axiom per bv_decide theorem)"]
 EXPLANATION = ("isValidCell generated from C equals the hand-written documentation-level layoutSpec for all 2^64 "
                "values (bv_decide); correspondence validates the translator on structured and malformed indexes")
 RULE = ("structured: every res x base-cell class x digit pattern, each with every single bit flipped; malformed "
@@ -55,7 +66,9 @@ def _values(rng, tier):
 def streams(rng, tier):
     vals = _values(rng, tier)
     ops = ["valid " + gen.hx(h) for h in vals]
-    ops2 = ["vparts " + gen.hx(h) for h in vals[::3]] + ["genfn " + gen.hx(h) for h in vals[::5]]
+    ops2 = ["vparts " + gen.hx(h) for h in vals[::3]] + ["genfn " + gen.hx(h) for h in vals[::5]] + \
+        ["genfn2 %s %d %s" % (gen.hx(h), r_, gen.hx(vals[(i_ * 7 + 3) % len(vals)]))
+         for i_, h in enumerate(vals[::7]) for r_ in ((i_ % 19) - 2, gen.EXTREME_INTS[i_ % len(gen.EXTREME_INTS)])]
     ops3 = []
     for h in vals[::11]:
         ops3.append(f"mac {gen.hx(h)} {rng.randrange(1, 16)} {rng.randrange(8)} {rng.randrange(256)}")
